@@ -40,8 +40,8 @@ def origin(body, local, defs=None, projs=None, depth=0, seen=None):
         return ("multi", local, _clean(projs))
     seen = seen | {local}
     if 1 <= local <= body.arg_count:
-        # an argument that is never reassigned
-        if not defs.defs.get(local):
+        # an argument that is never reassigned as a whole (writes through it / to its fields do not rebind it)
+        if not defs.whole_defs(local):
             return ("arg", local, _clean(projs))
     ds = defs.defs.get(local, [])
     whole = [d for d in ds if not d[4]]
